@@ -118,7 +118,10 @@ def run(ctx):
     ctx.assumptions = ["ground truth comes from harness/gen_quic.py (independent RFC sender); datagrams are told apart by "
                        "their capture timestamps as the property says"]
     import c02_model, c02_file_thms, file_corr
-    ctx.prove(c02_model.modules() + ["TLX.Props.C16", "TLX.Props.C17"] + c02_file_thms.MODULES)
+    import translate                 # decision-logic functions re-translated from the source and proved equal to the model
+    _tm, _tt = translate.wire(ctx, "C02")
+    ctx.prove(c02_model.modules() + ["TLX.Props.C16", "TLX.Props.C17"] + c02_file_thms.MODULES + _tm)
+    ctx.require_theorems(_tt)
     ctx.require_theorems(c02_model.theorems() + c02_file_thms.THEOREMS)   # C02File: C02 as ONE theorem about exportFile
     c02_model.run_model(ctx)          # ties every QUIC component model to the real code
     file_corr.correspond(ctx, ctx.n(20, 400))     # ties exportFile (capture FILE + key-log file → output FILE) byte for byte
